@@ -349,7 +349,7 @@ func (e *Engine) allowedPkg(path string) bool {
 		return true
 	case "strconv":
 		return true
-	case "strings", "bytes", "encoding/xml", "io/fs", "regexp", "regexp/syntax", "bufio":
+	case "strings", "bytes", "encoding/xml", "io/fs", "regexp", "regexp/syntax", "bufio", "io/ioutil":
 		return true
 	case "os":
 		// only the FileInfo accessors of os.fileStat run for real; everything else in
